@@ -1,0 +1,27 @@
+//go:build verif
+
+package cache
+
+import "time"
+
+// VerifAdvance ages every entry by d (logical clock for verification harnesses).
+func (c *LRUCache) VerifAdvance(d time.Duration) {
+	c.mu.Lock()
+	defer c.mu.Unlock()
+	for e := c.evictList.Front(); e != nil; e = e.Next() {
+		entry := e.Value.(*Entry)
+		entry.CreatedAt = entry.CreatedAt.Add(-d)
+		entry.AccessedAt = entry.AccessedAt.Add(-d)
+	}
+}
+
+// VerifAdvance forwards to the underlying LRU cache.
+func (sc *SearchCache) VerifAdvance(d time.Duration) { sc.cache.VerifAdvance(d) }
+
+// VerifAdvance forwards to the search cache.
+func (cm *Manager) VerifAdvance(d time.Duration) { cm.searchCache.VerifAdvance(d) }
+
+// VerifNewManager builds a manager with a caller-chosen capacity and TTL.
+func VerifNewManager(capacity int, ttl time.Duration) *Manager {
+	return &Manager{searchCache: NewSearchCache(capacity, ttl), enabled: true}
+}
